@@ -153,6 +153,13 @@ QStringList QXmppVCardManager::discoveryFeatures() const
 bool QXmppVCardManager::handleStanza(const QDomElement &element)
 {
     if (element.tagName() == u"iq" && QXmppVCardIq::isVCard(element)) {
+        // This manager only processes vCard responses. Requests must not be swallowed here:
+        // the client answers unhandled IQ requests with an error (RFC 6120, 8.2.3).
+        const auto iqType = element.attribute(u"type"_s);
+        if (iqType == u"get" || iqType == u"set") {
+            return false;
+        }
+
         QXmppVCardIq vCardIq;
         vCardIq.parse(element);
 
